@@ -6,6 +6,7 @@ import (
 
 	utils "github.com/comdex-official/comdex/types"
 
+	auctiontypes "github.com/comdex-official/comdex/x/auction/types"
 	"github.com/comdex-official/comdex/x/auctionsV2/types"
 	auctionsV2types "github.com/comdex-official/comdex/x/auctionsV2/types"
 	collectortypes "github.com/comdex-official/comdex/x/collector/types"
@@ -365,11 +366,11 @@ func (k Keeper) CloseEnglishAuction(ctx sdk.Context, englishAuction types.Auctio
 	}
 
 	if liquidationData.InitiatorType == types.SurplusAuctionInitiator {
-		// Take collateral from collector
+		// Take collateral from the auction module account: the lot left the collector - coins and net
+		// fees - when the auction was started (GetAmountFromCollector) and has been waiting there since
 		// send collateral to user
 		// send harbor to token mint to burn
-		// set net fees data
-		err = k.bankKeeper.SendCoinsFromModuleToModule(ctx, collectortypes.ModuleName, auctionsV2types.ModuleName, sdk.NewCoins(englishAuction.CollateralToken))
+		err = k.bankKeeper.SendCoinsFromModuleToModule(ctx, auctiontypes.ModuleName, auctionsV2types.ModuleName, sdk.NewCoins(englishAuction.CollateralToken))
 		if err != nil {
 			return err
 		}
@@ -388,11 +389,6 @@ func (k Keeper) CloseEnglishAuction(ctx sdk.Context, englishAuction types.Auctio
 		err = k.tokenMint.BurnTokensForApp(ctx, englishAuction.AppId, englishAuction.DebtAssetId, englishAuction.DebtToken.Amount)
 		if err != nil {
 			return err
-		}
-
-		err = k.collector.SetNetFeeCollectedData(ctx, englishAuction.AppId, englishAuction.CollateralAssetId, englishAuction.CollateralToken.Amount)
-		if err != nil {
-			return types.ErrorUnableToSetNetFees
 		}
 
 		auctionLookupTable, found := k.collector.GetAuctionMappingForApp(ctx, englishAuction.AppId, englishAuction.CollateralAssetId)
